@@ -2,7 +2,7 @@
    (no extra letters): an abstract syntax, a parser from text, and a backtracking matcher.  The parser and matcher
    are executable and are compared with CPython's re on every (expression, string) pair of the real runs. *)
 From Coq Require Import ZArith List Bool.
-From Tdda Require Import Base.Sexp Base.Str Rexpy.Chars Rexpy.OracleCheck.
+From Tdda Require Import Base.Sexp Base.Str Rexpy.Chars Rexpy.Pipeline Rexpy.OracleCheck Rexpy.Wire.
 Import ListNotations.
 Open Scope Z_scope.
 
@@ -196,6 +196,36 @@ Definition re_model_match (ct : chartab) (text s : str) : option bool :=
                         match drop_final_newline s with Some s' => match_items ct items s' | None => false end)
   | None => None
   end.
+
+(* ------------------------------------------------------------------ which refined patterns the text theorem covers *)
+(* the categories that have a regular expression when there are no extra letters *)
+Definition class_codes : list Z := [cA; ca; cL; cUL; cUM; cD; ch; cH; cX; cN; cn; cC; cUC; cWS; cP; cO; cAny].
+
+Definition quant_okb (m : Z) (M : option Z) : bool :=
+  Z.leb 0 m && match M with Some M' => Z.leb 0 M' | None => true end.
+
+Definition frag_renderable (f : frag) : bool :=
+  match f_atom f with
+  | ALit [c] => quant_okb (f_min f) (f_max f)
+  | ALit _ => Z.eqb (f_min f) 1 && opt_Z_eqb (f_max f) 1
+  | ARaw c => (Z.eqb c 46 || negb (is_meta c)) && quant_okb (f_min f) (f_max f)
+  | AClass code => memc code class_codes && quant_okb (f_min f) (f_max f)
+  | ABracket cs => negb (match cs with [] => true | _ => false end) && quant_okb (f_min f) (f_max f)
+  end.
+
+
+(* are all the patterns of one batch extraction (no extra letters) covered by the text theorem? *)
+Definition batch_renderable (ct : chartab) (o : ropts) (stripped : bool) (gt : groups_table) (ex : examples) : bool :=
+  match batch_extract ct o [] stripped gt ex with
+  | Ok (merged, _) => forallb (forallb frag_renderable) merged
+  | Err _ => false
+  end.
+
+(* (opts stripped groups strings) -> 0/1 *)
+Definition renderable_entry (s : sexp) : sexp :=
+  of_bool (batch_renderable py_chartab (sx_ropts (sx_nth 0 s)) (sx_bool (sx_nth 1 s))
+                            (map sx_grow (sx_list (sx_nth 2 s)))
+                            {| ex_strings := sx_strs (sx_nth 3 s); ex_freqs := [] |}).
 
 (* (text strings) -> (2) outside the fragment | (b1 b2 ...) one 0/1 per string *)
 Definition regex_entry (s : sexp) : sexp :=
